@@ -38,7 +38,10 @@ func init() {
 		ns := px.Namespace(args[0].String())
 		n := args[1].String()
 		if len(args) > 2 {
-			return newTypedName2(ns, n, px.URI(args[2].(*UriValue).String()))
+			// an authority that is undef (the declared default) is the runtime authority, as when it is left out
+			if u, ok := args[2].(*UriValue); ok {
+				return newTypedName2(ns, n, px.URI(u.String()))
+			}
 		}
 		return NewTypedName(ns, n)
 	}, func(ctx px.Context, args []px.Value) px.Value {
@@ -46,7 +49,9 @@ func init() {
 		ns := px.Namespace(h.Get5(`namespace`, px.EmptyString).String())
 		n := h.Get5(`name`, px.EmptyString).String()
 		if x, ok := h.Get4(`authority`); ok {
-			return newTypedName2(ns, n, px.URI(x.(*UriValue).String()))
+			if u, ok := x.(*UriValue); ok {
+				return newTypedName2(ns, n, px.URI(u.String()))
+			}
 		}
 		return NewTypedName(ns, n)
 	})
